@@ -366,6 +366,7 @@ class Open(State):
 
         if self.is_set_release_signal_from_local():
             self.event_stop()
+            return
 
         if self.has_send_queue_message():
             self.make_default_logging(queue="send")
